@@ -1,1 +1,203 @@
-/- property theorems for C03 (filled in below) -/
+/-
+C03 — applying transformations is a left group action on every kind of object.
+Unit level (`GT.Model.Action`): the laws hold for the primary, auxiliary and dual blocks
+alike because all three are multiplied by the same matrix; the composite level is obtained
+from C04's `matrixProduct` theorems (`GT.Lemmas.Obj`), for every composite rank.
+Only property theorems and non-vacuity examples here.
+-/
+import GT.Model.Action
+import GT.Model.Units
+import GT.Lemmas.Action
+import GT.Lemmas.Obj
+import GT.Lemmas.Units
+import Mathlib.LinearAlgebra.Matrix.Determinant.Basic
+import Mathlib.Algebra.Field.Rat
+import Mathlib.Tactic.FinCases
+
+set_option linter.unusedSectionVars false
+set_option linter.unusedSimpArgs false
+set_option linter.unusedVariables false
+
+open Matrix
+
+namespace GT.C03
+open GT GT.Act GT.Act.ND
+
+variable {K : Type} [Field K] {n k : ℕ}
+
+/-! ## the action laws on one unit (point rows, rank-2 units, each matrix of a rank-3 aux unit) -/
+
+/-- the library's composition convention: `(A @ B).matrix = B.matrix · A.matrix` -/
+theorem compose_matrix (A B : Matrix (Fin n) (Fin n) K) : compose A B = B * A := rfl
+
+/-- `(A @ B) @ x = A @ (B @ x)` on a point -/
+theorem apply_comp_row (A B : Matrix (Fin n) (Fin n) K) (x : Fin n → K) :
+    actRow (compose A B) x = actRow A (actRow B x) := by
+  simp [actRow, compose, actMat, Matrix.vecMul_vecMul]
+
+/-- `(A @ B) @ X = A @ (B @ X)` on a unit of rank 2 (primary data of pairs, segments, geodesics,
+polygons, simplices, tangent vectors, horospheres, hyperplanes, subspaces, transformations;
+auxiliary data of segments and tangent vectors; every edge of a polygon's auxiliary data) -/
+theorem apply_comp_mat (A B : Matrix (Fin n) (Fin n) K) (X : Matrix (Fin k) (Fin n) K) :
+    actMat (compose A B) X = actMat A (actMat B X) := by
+  simp [actMat, compose, Matrix.mul_assoc]
+
+theorem apply_one_row (x : Fin n → K) : actRow 1 x = x := by simp [actRow]
+theorem apply_one_mat (X : Matrix (Fin k) (Fin n) K) : actMat 1 X = X := by simp [actMat]
+
+/-- `A.inv() @ (A @ x) = x` for invertible `A` (`utils.invert` = `A⁻¹`) -/
+theorem apply_inv_cancel_row (A : Matrix (Fin n) (Fin n) K) (hA : A.det ≠ 0) (x : Fin n → K) :
+    actRow A⁻¹ (actRow A x) = x := by
+  have : IsUnit A.det := isUnit_iff_ne_zero.2 hA
+  simp [actRow, Matrix.vecMul_vecMul, Matrix.mul_nonsing_inv _ this]
+
+theorem apply_inv_cancel_mat (A : Matrix (Fin n) (Fin n) K) (hA : A.det ≠ 0)
+    (X : Matrix (Fin k) (Fin n) K) : actMat A⁻¹ (actMat A X) = X := by
+  have : IsUnit A.det := isUnit_iff_ne_zero.2 hA
+  simp [actMat, Matrix.mul_assoc, Matrix.mul_nonsing_inv _ this]
+
+/-- … and the other way round: `A @ (A.inv() @ X) = X` -/
+theorem inv_apply_cancel_mat (A : Matrix (Fin n) (Fin n) K) (hA : A.det ≠ 0)
+    (X : Matrix (Fin k) (Fin n) K) : actMat A (actMat A⁻¹ X) = X := by
+  have : IsUnit A.det := isUnit_iff_ne_zero.2 hA
+  simp [actMat, Matrix.mul_assoc, Matrix.nonsing_inv_mul _ this]
+
+/-- `A.inv()` composed with `A` is the identity transformation, on both sides -/
+theorem compose_inv (A : Matrix (Fin n) (Fin n) K) (hA : A.det ≠ 0) :
+    compose A⁻¹ A = 1 ∧ compose A A⁻¹ = 1 := by
+  have : IsUnit A.det := isUnit_iff_ne_zero.2 hA
+  simp [compose, actMat, Matrix.mul_nonsing_inv _ this, Matrix.nonsing_inv_mul _ this]
+
+/-- rows of a rank-2 unit transform as points -/
+theorem actMat_row (A : Matrix (Fin n) (Fin n) K) (X : Matrix (Fin k) (Fin n) K) (i : Fin k) :
+    actMat A X i = actRow A (X i) := by
+  funext j; simp [actMat, actRow, Matrix.mul_apply, Matrix.vecMul, dotProduct]
+
+/-- an invertible, non-diagonal transformation exists: the hypotheses are satisfiable -/
+example : (!![1, 2; 0, 1] : Matrix (Fin 2) (Fin 2) ℚ).det ≠ 0 := by
+  simp [Matrix.det_fin_two]
+
+/-! ## derived data transforms with the object ("as projective objects including their derived
+data"): recomputing it from the transformed primary data gives the transformed derived data -/
+
+/-- polygon edges, any transformation -/
+theorem polygonEdges_equivariant (A : Matrix (Fin n) (Fin n) K) (X : Matrix (Fin (k + 1)) (Fin n) K)
+    (e : Fin (k + 1)) : polygonEdges (actMat A X) e = actMat A (polygonEdges X e) := by
+  ext i j
+  fin_cases i <;> simp [polygonEdges, actMat, Matrix.mul_apply]
+
+/-- the Gram entries a form-preserving transformation leaves invariant -/
+theorem bil_invariant {J A : Matrix (Fin n) (Fin n) K} (hA : IsIso J A) (x y : Fin n → K) :
+    bil J (actRow A x) (actRow A y) = bil J x y := bil_act hA x y
+
+/-- a segment's ideal endpoints, form-preserving transformation (the quadratic's coefficients
+are Gram entries) — with the *same* root function, so the order of the two endpoints is kept -/
+theorem segmentIdeal_equivariant {J A : Matrix (Fin n) (Fin n) K} (hA : IsIso J A) (r : K → K)
+    (X : Matrix (Fin 2) (Fin n) K) :
+    segmentIdeal J r (actMat A X) = actMat A (segmentIdeal J r X) := by
+  have hq : segQuad J (actMat A X) = segQuad J X := by
+    simp only [segQuad, actMat_row, bil_act hA]
+  unfold segmentIdeal
+  rw [hq, segMix_act]
+
+/-- a tangent vector's projected vector, form-preserving transformation -/
+theorem tangentProj_equivariant {J A : Matrix (Fin n) (Fin n) K} (hA : IsIso J A)
+    (X : Matrix (Fin 2) (Fin n) K) :
+    tangentProj J (actMat A X) = actMat A (tangentProj J X) := by
+  unfold tangentProj
+  simp only [actMat_row, bil_act hA]
+  exact tanMix_act _ A X
+
+/-- the Minkowski form is preserved by a boost — `IsIso` is satisfiable by a non-trivial matrix -/
+example : IsIso (!![-1, 0; 0, 1] : Matrix (Fin 2) (Fin 2) ℚ) !![5/4, 3/4; 3/4, 5/4] := by
+  unfold IsIso
+  ext i j
+  fin_cases i <;> fin_cases j <;> simp [Matrix.mul_apply, Fin.sum_univ_two] <;> norm_num
+
+/-! ## representations: `rep[word] @ point` is the word's matrix acting on the column vector -/
+
+/-- a wrapped column matrix acts on a row vector as the matrix acts on the column -/
+theorem wrap_act (M : Matrix (Fin n) (Fin n) K) (p : Fin n → K) : actRow (wrap M) p = M *ᵥ p := by
+  simp [actRow, wrap, Matrix.vecMul_transpose]
+
+/-- `wrap(ρ(u)) @ wrap(ρ(v)) = wrap(ρ(u)·ρ(v))`: the row convention reverses twice -/
+theorem wrap_compose (M N : Matrix (Fin n) (Fin n) K) : compose (wrap M) (wrap N) = wrap (M * N) := by
+  simp [compose, actMat, wrap, Matrix.transpose_mul]
+
+theorem unwrap_wrap (M : Matrix (Fin n) (Fin n) K) : unwrap (wrap M) = M ∧ wrap (unwrap M) = M := by
+  simp [wrap, unwrap]
+
+/-- `Representation._word_value` is multiplicative in the word -/
+theorem wordMat_append {G : Type} (gens : G → Matrix (Fin n) (Fin n) K) (u v : List G) :
+    wordMat gens (u ++ v) = wordMat gens u * wordMat gens v := wordMat_append' gens u v
+
+/-- `rep[w] @ p` = (matrix of `w`) · (column `p`), for every word — projective and hyperbolic
+representations share `wrap_func` up to the class of the result -/
+theorem rep_word_act {G : Type} (gens : G → Matrix (Fin n) (Fin n) K) (w : List G) (p : Fin n → K) :
+    actRow (wrap (wordMat gens w)) p = wordMat gens w *ᵥ p := wrap_act _ _
+
+/-- `rep[u] @ rep[v] = rep[uv]` as transformations -/
+theorem rep_word_compose {G : Type} (gens : G → Matrix (Fin n) (Fin n) K) (u v : List G) :
+    compose (wrap (wordMat gens u)) (wrap (wordMat gens v)) = wrap (wordMat gens (u ++ v)) := by
+  rw [wrap_compose, wordMat_append]
+
+/-- `rep[g] = T` after `rep[g] = T` (set stores `unwrap T`, get wraps the product) -/
+theorem rep_generator {G : Type} (T : G → Matrix (Fin n) (Fin n) K) (g : G) :
+    wrap (wordMat (fun h => unwrap (T h)) [g]) = T g := by
+  simp [wordMat, wrap, unwrap]
+
+/-! ## composite level: `Transformation.apply` on a composite object applies the unit law at
+every index and keeps kind and composite shape (every rank) -/
+
+variable [Inhabited K]
+
+/-- composite of points × one transformation -/
+theorem apply_composite_row (X A : ND K) {o : List ℕ} (hX : X.shape = o ++ [n]) (hA : A.shape = [n, n]) :
+    ∃ c, matrixProduct X A 1 2 .elementwise = .ok c ∧ c.shape = X.shape ∧
+      ∀ i, Valid o i → rowAt c n i = actRow (matAt A n n []) (rowAt X n i) := by
+  obtain ⟨c, hc, hs, hg⟩ := mp12_units .elementwise X A (o2 := []) hX (by simpa using hA)
+    (bcastShape_nil_right o)
+  refine ⟨c, hc, by rw [hs, hX], fun i hi => ?_⟩
+  rw [hg i hi]
+  simp [unitIx1, unitIx2, bcIx_self hi, actRow]
+
+/-- composite of rank-2 units × one transformation -/
+theorem apply_composite_mat (X A : ND K) {o : List ℕ} {p : ℕ} (hX : X.shape = o ++ [p, n])
+    (hA : A.shape = [n, n]) :
+    ∃ c, matrixProduct X A 2 2 .elementwise = .ok c ∧ c.shape = X.shape ∧
+      ∀ i, Valid o i → matAt c p n i = actMat (matAt A n n []) (matAt X p n i) := by
+  obtain ⟨c, hc, hs, hg⟩ := mp22_units .elementwise X A (o2 := []) hX (by simpa using hA)
+    (bcastShape_nil_right o)
+  refine ⟨c, hc, by rw [hs, hX], fun i hi => ?_⟩
+  rw [hg i hi]
+  simp [unitIx1, unitIx2, bcIx_self hi, actMat]
+
+/-- composite of rank-3 auxiliary units (polygon edges) × one transformation -/
+theorem apply_composite_stack (X A : ND K) {o : List ℕ} {e p : ℕ} (hX : X.shape = o ++ [e, p, n])
+    (hA : A.shape = [n, n]) :
+    ∃ c, matrixProduct X A 3 2 .elementwise = .ok c ∧ c.shape = X.shape ∧
+      ∀ i, Valid o i → ∀ v, stackAt c e p n i v = actMat (matAt A n n []) (stackAt X e p n i v) := by
+  obtain ⟨c, hc, hs, hg⟩ := mp32_units .elementwise X A (o2 := []) hX (by simpa using hA)
+    (bcastShape_nil_right o)
+  refine ⟨c, hc, by rw [hs, hX], fun i hi v => ?_⟩
+  rw [hg i hi v]
+  simp [unitIx1, unitIx2, bcIx_self hi, actMat]
+
+/-- `(A @ B) @ X = A @ (B @ X)` for a composite of points of any shape, on the arrays themselves:
+`(A @ B).matrix` is `matrixProduct B A`, and both sides agree at every unit -/
+theorem apply_comp_composite (X A B : ND K) {o : List ℕ} (hX : X.shape = o ++ [n])
+    (hA : A.shape = [n, n]) (hB : B.shape = [n, n]) :
+    ∃ AB BX l r, matrixProduct B A 2 2 .elementwise = .ok AB ∧
+      matrixProduct X B 1 2 .elementwise = .ok BX ∧
+      matrixProduct X AB 1 2 .elementwise = .ok l ∧
+      matrixProduct BX A 1 2 .elementwise = .ok r ∧ l.shape = r.shape ∧
+      ∀ i, Valid o i → rowAt l n i = rowAt r n i := by
+  obtain ⟨AB, hAB, sAB, gAB⟩ := apply_composite_mat (n := n) B A (o := []) (p := n) (by simpa using hB) hA
+  obtain ⟨BX, hBX, sBX, gBX⟩ := apply_composite_row X B hX hB
+  obtain ⟨l, hl, sl, gl⟩ := apply_composite_row X AB hX (by rw [sAB, hB])
+  obtain ⟨r, hr, sr, gr⟩ := apply_composite_row BX A (by rw [sBX, hX]) hA
+  refine ⟨AB, BX, l, r, hAB, hBX, hl, hr, by rw [sl, sr, sBX], fun i hi => ?_⟩
+  rw [gl i hi, gr i hi, gBX i hi, gAB [] (by simp)]
+  exact apply_comp_row _ _ _
+
+end GT.C03
